@@ -166,9 +166,9 @@ def run(chk):
     allow = load_allow()
     allow_used = {}
 
-    def allowed(fn, what):
+    def allowed(fn, what, own=None):
         for i, r in enumerate(allow):
-            if r["fn"] == fn and r["site"] == what:
+            if r["fn"] in (fn, own) and r["site"] == what:
                 allow_used[i] = allow_used.get(i, 0) + 1
                 if allow_used[i] <= r.get("max", 1):
                     return r
@@ -221,10 +221,36 @@ def run(chk):
     # C10(b) facts make the generic table lookups safe: import lazily to share one implementation
     table_ok = None
     n_sites = 0
+    from . import inline
+
+    def attribute_to(b):
+        """the function a site is reported under: closures count as their enclosing function, and a crate-private helper
+        with a single caller counts as that caller — so extracting a block into a helper (or a closure into a fn) does not
+        move an allow-listed or known site to a new name"""
+        seen = set()
+        while b is not None and b.path not in seen:
+            seen.add(b.path)
+            if b.path != b.root:
+                nb = p.bodies.get(b.root)
+                if nb is None:
+                    break
+                b = nb
+                continue
+            if inline.default_policy(p, b):
+                cs = {cb.root for cb, bb, t in callers.get(b.path, [])}
+                if len(cs) == 1:
+                    nb = p.bodies.get(next(iter(cs)))
+                    if nb is not None:
+                        b = nb
+                        continue
+            break
+        return b
+
     for path in sorted(scope):
         b = scope[path]
         if b.def_kind in CONST_KINDS or any(k in b.j.get("def_kind", "") for k in CONST_KINDS):
             continue
+
         sites = []
         for bb, blk in enumerate(b.blocks):
             if blk["cleanup"]:
@@ -244,7 +270,7 @@ def run(chk):
         init, init_desc = caller_init(b)
         iv = intervals_of(b, init)
         du = iv.du
-        fn = api_name(b)
+        fn = api_name(attribute_to(b))
         generic_table = "public-suffix" in b.file
         for bb, t, kind in sites:
             n_sites += 1
@@ -372,12 +398,12 @@ def run(chk):
                     from . import c10
                     table_ok = c10.table_facts_hold(p)
                 if table_ok[0]:
-                    r = allowed(fn, what)
+                    r = allowed(fn, what, api_name(b))
                     if r is not None:
                         ok = True
                         wit = "discharged by C10(b) table facts + allow row: " + r["reason"]
             if not ok:
-                r = allowed(fn, what)
+                r = allowed(fn, what, api_name(b))
                 if r is not None:
                     ok = True
                     wit = "allow row: %s (%s)" % (r["reason"], wit)
